@@ -558,6 +558,39 @@ def rule_buffer_lifetime(ctx, px):
         raise AnalysisError(f"buffer-lifetime: {n_rel} releases / {n_get} acquisitions found in the Cython sources, confirmed by hand: >= 12 each")
 
 
+
+def rule_xerial_progress(ctx):
+    R = "progress"
+    fi = ctx.fn("aiokafka.codec.snappy_decode")
+    c = ctx.cfg(fi)
+    heads = [h for h in c.nodes if h.kind == "loop" and isinstance(h.ast, ast.While)]
+    if len(heads) != 1:
+        raise AnalysisError("progress: the block loop of snappy_decode was not found")
+    head = heads[0]
+    body = c.loop_body(head)
+    t = head.ast.test
+    cur = t.left.id if isinstance(t, ast.Compare) and isinstance(t.left, ast.Name) else None
+    if cur is None:
+        raise AnalysisError("progress: snappy_decode's loop test is not `cursor < bound`")
+    # the cursor moves by the UNTRUSTED signed block length: an iteration may only complete after the block was either handed to the
+    # decompressor unconditionally (which rejects the empty slice a non-positive length produces) or proven positive
+    from ..rulekit import must_facts
+    mf = must_facts(c)
+    moves = [n for n in body if n.kind == "store" and isinstance(n.ast, ast.Name) and n.ast.id == cur and isinstance(n.stmt, ast.Assign)]
+    ok = bool(moves)
+    why = "no cursor move"
+    for mv in moves:
+        dec = [n for n in body if n.kind == "call" and unparse(n.ast.func).endswith("decompress_raw") and n.ast.args
+               and isinstance(n.ast.args[0], ast.Subscript) and isinstance(n.ast.args[0].slice, ast.Slice)]
+        validated = bool(dec) and mv not in c.reachable([head], avoid=set(dec), exc=False)
+        positive = any(a in mf[mv] for a in (("0", "<", "block_size"), ("1", "<=", "block_size")))
+        if not (validated or positive):
+            ok = False
+            why = f"`{unparse(mv.stmt)}` (line {mv.lineno}) can run without the block having been decompressed or its length proven positive"
+    ob(ctx, R, fi, head.lineno, "xerial-loop-progress", ok,
+       f"snappy_decode: {why}: a hostile block length <= 0 (e.g. -4) puts the cursor back where it was and the scan never ends")
+
+
 def run(ctx):
     rep = ctx.rep
     rep.explanation = ("C10: check-before-use analysis of every raw-pointer read in the compiled decoders (Cython parse tree lowered to a CFG; "
@@ -571,6 +604,7 @@ def run(ctx):
     rule_read_covered(ctx, px, summaries, seeds)
     rule_decode_varint_cython(ctx, px)
     rule_progress(ctx, px, summaries)
+    rule_xerial_progress(ctx)
     rule_crc(ctx, px)
     rule_clean_errors(ctx)
     rule_buffer_lifetime(ctx, px)
